@@ -13,7 +13,7 @@ import z3
 
 from svx import harness as H, nets, catalog, stubs, runner, discharge as D, thermal
 from svx.catalog import E
-from svx.sym import Sym, _t, EXP
+from svx.sym import Sym, _t, EXP, rat
 from svx.common import concrete_pipeflow, is_nan
 
 PROP = "C11"
@@ -49,6 +49,12 @@ def specs():
     S.append(loop("qe_dt", [E("heat_consumer", f=1, to=2, qext_w=20000.0, deltat_k=15.0), E("heat_consumer", f=1, to=2, mdot=0.3, qext_w=3000.0)]))
     S.append(loop("qe_tr", [E("heat_consumer", f=1, to=2, qext_w=20000.0, treturn_k=285.0), E("heat_consumer", f=1, to=2, mdot=0.3, qext_w=3000.0)]))
     S.append(loop("hex", [E("heat_exchanger", f=1, to=2, qext_w=9000.0), E("flow_control", f=1, to=2, mdot=0.4)]))
+    S.append(loop("mixed", [E("heat_consumer", f=1, to=2, qext_w=20000.0, treturn_k=285.0), E("heat_consumer", f=1, to=2, mdot=0.8, deltat_k=12.0),
+                            E("heat_consumer", f=1, to=2, mdot=0.6, treturn_k=290.0)]))
+    S.append(loop("hex_rev", [E("heat_exchanger", f=2, to=1, qext_w=9000.0), E("flow_control", f=1, to=2, mdot=0.4)]))
+    S.append({"name": "series_rev", "fluid": "water", "nj": 5, "elems": [
+        E("circ_pump_pressure", ret=4, flow=0), E("pipe", f=0, to=1, u=5.0), E("heat_consumer", f=1, to=2, mdot=1.2, qext_w=8000.0),
+        E("heat_exchanger", f=3, to=2, qext_w=6000.0), E("pipe", f=4, to=3, u=5.0)]})
     S.append({"name": "series", "fluid": "water", "nj": 5, "elems": [
         E("circ_pump_mass", ret=4, flow=0), E("pipe", f=0, to=1, u=5.0), E("heat_consumer", f=1, to=2, mdot=1.2, qext_w=8000.0),
         E("heat_exchanger", f=2, to=3, qext_w=-3000.0), E("pipe", f=3, to=4, u=5.0)]})
@@ -95,6 +101,9 @@ def obligations(st, names, job):
             m, tf, to = res.at[ix, "mdot_from_kg_per_s"], res.at[ix, "t_from_k"], res.at[ix, "t_outlet_k"]
             if is_nan(m) or is_nan(tf):
                 continue
+            # the temperature drop is taken along the flow: the fluid enters at the to-junction if it runs against the
+            # orientation of the branch (the switch threshold is the one of the code, so that the path decides it)
+            tf = Sym(z3.If(_t(m) < rat(-2e-11), _t(res.at[ix, "t_to_k"]), _t(tf)))
             cm = (cp(_t(tf)) + cp(_t(to))) / 2
             mabs = thermal.absz(_t(m))
             q = res.at[ix, "qext_w"] if tbl == "heat_consumer" else t.at[ix, "qext_w"]
@@ -222,7 +231,8 @@ def replay(rs):
                     r = net.res_heat_consumer.loc[ix]
                     if np.isnan(r.mdot_from_kg_per_s):
                         continue
-                    want = r.mdot_from_kg_per_s * (cp(r.t_from_k) + cp(r.t_outlet_k)) / 2 * (r.t_from_k - r.t_outlet_k)
+                    t_in = r.t_from_k if r.mdot_from_kg_per_s >= 0 else r.t_to_k
+                    want = abs(r.mdot_from_kg_per_s) * (cp(t_in) + cp(r.t_outlet_k)) / 2 * (t_in - r.t_outlet_k)
                     g = abs(want - r.qext_w) / (1 + abs(want))
                     if g > worst:
                         worst, where = g, "duty of heat_consumer %s: %r vs reported %r" % (ix, want, r.qext_w)
@@ -246,7 +256,8 @@ def replay(rs):
                     r = net.res_heat_exchanger.loc[ix]
                     if np.isnan(r.mdot_from_kg_per_s):
                         continue
-                    want = r.mdot_from_kg_per_s * (cp(r.t_from_k) + cp(r.t_outlet_k)) / 2 * (r.t_from_k - r.t_outlet_k)
+                    t_in = r.t_from_k if r.mdot_from_kg_per_s >= 0 else r.t_to_k
+                    want = abs(r.mdot_from_kg_per_s) * (cp(t_in) + cp(r.t_outlet_k)) / 2 * (t_in - r.t_outlet_k)
                     g = abs(want - net.heat_exchanger.at[ix, "qext_w"]) / (1 + abs(want))
                     if g > worst:
                         worst, where = g, "duty of heat_exchanger %s: %r vs set %r" % (ix, want, net.heat_exchanger.at[ix, "qext_w"])
